@@ -102,4 +102,12 @@ theorem Legacy.included_end_key_ignored :
     (witness.map fun s => (view s).itemsFromKey { honourEndIncl := false } 3 (.included 7)) = some (.ok [(3, 3), (5, 5)]) ∧
     (witness.map fun s => (view s).itemsFromKey Cfg.repaired 3 (.included 7)) = some (.ok [(3, 3), (5, 5), (7, 7)]) := by decide
 
+/-- non-vacuity: the range theorems at a concrete three-level state reached through splits, borrows and merges
+    (`C02.demo_state`), with an excluded bound on a present key and an included bound beyond the maximum -/
+example : ∃ s : RState Int Nat, s.height = 2 ∧
+    (view s).range Cfg.repaired (.excluded 12) (.included 100) =
+      .ok ((abs s).filter (fun p => inBounds (.excluded (12 : Int)) (.included (100 : Int)) p.1)) := by
+  obtain ⟨s, hs, hsm, hh, _, _⟩ := C02.demo_state
+  exact ⟨s, hh, range_eq_filter s _ _ hs hsm⟩
+
 end BPT.Props.C03
